@@ -331,7 +331,7 @@ func loadAll(ws *Workspace, tier string) (*Loaded, error) {
 	if nerr > 0 {
 		return nil, fmt.Errorf("%d package load errors", nerr)
 	}
-	prog, _ := ssautil.AllPackages(pkgs, ssa.BuilderMode(0))
+	prog, _ := ssautil.AllPackages(pkgs, ssa.InstantiateGenerics)
 	prog.Build()
 	ld := &Loaded{Prog: prog, Pkgs: pkgs}
 	for _, p := range pkgs {
